@@ -7,7 +7,9 @@ import (
 	"errors"
 
 	"github.com/pion/interceptor"
+	"github.com/pion/interceptor/pkg/jitterbuffer"
 	"github.com/pion/interceptor/pkg/nack"
+	"github.com/pion/interceptor/pkg/packetdump"
 	"github.com/pion/interceptor/pkg/report"
 	"github.com/pion/interceptor/pkg/rfc8888"
 	"github.com/pion/interceptor/pkg/twcc"
@@ -61,8 +63,12 @@ func member(k int) interceptor.Interceptor {
 		f, err = report.NewReceiverInterceptor()
 	case 6:
 		f, err = twcc.NewSenderInterceptor()
-	default:
+	case 7:
 		f, err = rfc8888.NewSenderInterceptor()
+	case 8:
+		f, err = packetdump.NewReceiverInterceptor()
+	default:
+		f, err = jitterbuffer.NewInterceptor()
 	}
 	vr.Assert(err == nil, "factory constructs")
 	i, err := f.NewInterceptor("")
